@@ -34,9 +34,9 @@ REGISTRATION = {
             "legacy push: single-part uploads only (files < 100 MB); two concurrent pushes sharing one upload "
             "through blobUploadManager are modelled and driven (the second joins while the first one's session POST "
             "is held), more than two or a join at another moment are not; not scripted: 401 (token dance), a final 201 "
-            "to the upload POST and a final 307 to a PATCH try (both can block the real code for ever). Known "
-            "finding F19 (blobUpload.Run dies on a nil part hash when its context is cancelled before a part starts, "
-            "random 1/2; shown in a process of its own; proposed_fixes/C09-F19-upload-run-cancelled-before-parts.patch), "
+            "to the upload POST and a final 307 to a PATCH try (both can block the real code for ever). "
+            "Finding F19 (blobUpload.Run died on a nil part hash when its context was cancelled before a part started) is "
+            "repaired in /repo (76b38d743); known: "
             "finding F18 (legacy push takes every final status < 400 for a success; "
             "proposed_fixes/C09-F18-legacy-push-require-2xx.patch, model flag `strict` selected by a probe) and "
             "finding F10d (Chunked writes into the final blob file) is open on /repo; "
